@@ -103,6 +103,35 @@ def extract():
                  env=goenv(), timeout=600)
     if rc != 0:
         raise MachineryError("extractor failed:\n" + out)
+    out += lockx(gen)
+    return out
+
+
+LOCKX_EXPLAIN = os.path.join(BUILD, "lockx.explain.json")
+LOCKX_DUMP = os.path.join(BUILD, "lockx.dump.txt")
+
+
+def lockx(gen):
+    """C15: regenerate the lock skeletons (Generated/Locks.lean) from /repo's working tree.
+    A translator failure is not fatal for the other properties: the stub it leaves is rejected
+    by the C15 obligation."""
+    os.makedirs(BUILD, exist_ok=True)
+    for f in (LOCKX_EXPLAIN, LOCKX_DUMP):
+        if os.path.exists(f):
+            os.remove(f)
+    target = os.path.join(gen, "Locks.lean")
+    rc, out = sh(["go", "run", ".", "-repo", REPO, "-config", "locks.json", "-out", target,
+                  "-explain", LOCKX_EXPLAIN, "-dump", LOCKX_DUMP], cwd=os.path.join(VERIF, "lockx"),
+                 env=goenv(), timeout=900)
+    if rc != 0 or not os.path.exists(target):
+        with open(target, "w") as f:
+            f.write("import FsDb.Model.Lockset\n/- STUB: /verif/lockx failed on the current tree -/\n"
+                    "namespace FsDb.Generated.Locks\nopen FsDb.Lockset\n"
+                    "def lockNames : List String := []\ndef f0 : Stmt := .bad\ndef funcs : List Stmt := [f0]\n"
+                    "def funcNames : List String := [\"lockx failed\"]\ndef notes : List String := []\n"
+                    "end FsDb.Generated.Locks\n")
+        with open(LOCKX_EXPLAIN, "w") as f:
+            json.dump({"failing": [{"Root": "lockx", "Why": "translator failed: " + out[-1500:]}], "roots": 0, "locks": 0, "notes": []}, f)
     return out
 
 
